@@ -32,6 +32,9 @@ func s2Points(context *api.Context, area b6.Area, minLevel int, maxLevel int) (b
 
 // Return a collection of points representing the centroids of s2 cells that cover the given area at the given level.
 func s2Grid(context *api.Context, area b6.Area, level int) (b6.Collection[int, string], error) {
+	if err := requireArea("s2-grid", area); err != nil {
+		return b6.Collection[int, string]{}, err
+	}
 	coverer := s2.RegionCoverer{MinLevel: level, MaxLevel: level}
 	cells := make(map[s2.CellID]struct{})
 	for i := 0; i < area.Len(); i++ {
